@@ -181,6 +181,8 @@ def _root(a, how, default):
                 return "bind:contains-" + n
         if "'cob'" in r:
             return "bind:contains-ChangeOpBasis"
+        if "'evolution'" in r:
+            return "bind:contains-Evolution"
         for n, (_, _, t) in zoo.ZOO.items():
             if "opargs" in t and f"'{n}'" in r:
                 return "bind:operator-valued-hyperparameter:" + n
@@ -337,4 +339,4 @@ def check(spec):
     if pending is not None:
         raise pending
     nested = any(isinstance(a.get(k), (dict, list)) for k in ("base", "operands", "obs"))
-    return Result(bool(nested or a.get("p") or a.get("kw")), labels=labels)
+    return Result(bool(nested or a.get("p") or a.get("kw")), labels=labels + zoo_extra.coverage_labels())
